@@ -16,8 +16,9 @@ Theorem fake_news_is_direct_recursion :
   (forall w a b, pair w (vadd a b) = radd (pair w a) (pair w b)) -> (forall w, pair w v0 = r0) ->
   forall (L : V -> V) (Ex : W -> W), (forall w v, pair (Ex w) v = pair w (L v)) ->
   forall (ZM : V -> Prop), (forall v, ZM v -> ZM (L v)) ->
-  forall (dm : W -> W), (forall w v, ZM v -> pair (dm w) v = pair w v) ->
-  forall (w0 : W) (V0 : Wb) (d0 : V) (y0 : R) (bV : Wb -> Wb) (gD : Wb -> V) (gY : Wb -> R),
+  forall (dm : W -> W) (WF : W -> Prop), (forall w, WF w -> WF (Ex w)) -> (forall w, WF w -> WF (dm w)) ->
+  (forall w v, WF w -> ZM v -> pair (dm w) v = pair w v) ->
+  forall (w0 : W), WF w0 -> forall (V0 : Wb) (d0 : V) (y0 : R) (bV : Wb -> Wb) (gD : Wb -> V) (gY : Wb -> R),
   ZM d0 -> (forall b, ZM (gD b)) ->
   forall s t, fake_news_J R V W Wb radd pair Ex dm w0 V0 d0 y0 bV gD gY t s
             = direct_J R V W Wb radd v0 vadd pair L w0 V0 d0 y0 bV gD gY t s.
